@@ -325,5 +325,17 @@ def c13b(root):
 
 ALL.update(c13b=c13b)
 
+
+
+def c04(root):
+    """Use the centred scores consistently with np.cov in the multivariate eigen-analysis."""
+    p = f'{root}/FDApy/preprocessing/dim_reduction/mfpca.py'
+    sub(p, """    scores_normed = scores_univariate / np.sqrt(len(scores_univariate) - 1)""",
+           """    scores_centered = scores_univariate - scores_univariate.mean(axis=0)
+    scores_normed = scores_centered / np.sqrt(len(scores_univariate) - 1)""")
+
+
+ALL.update(c04=c04)
+
 if __name__ == '__main__':
     ALL[sys.argv[1]](sys.argv[2])
